@@ -3,7 +3,9 @@
 set -u
 P=$1; ID=$2; TIER=${3:-quick}
 cd /repo && git apply $P || { echo "PATCH DOES NOT APPLY"; exit 2; }
+cp /verif/evidence/$ID.json /tmp/mutrun_ev_$$.json 2>/dev/null
 cd /verif && ./vcheck $ID $TIER > /tmp/mutrun_$$.log 2>&1; RC=$?
+[ -f /tmp/mutrun_ev_$$.json ] && mv /tmp/mutrun_ev_$$.json /verif/evidence/$ID.json   # evidence must describe the unchanged tree
 cd /repo && git checkout -q -- .
 echo "exit=$RC violations=$(grep -c ^VIOLATION /tmp/mutrun_$$.log)"
 grep -E "^  violation|INCONCL|ENGINE" /tmp/mutrun_$$.log | cut -c1-300 | sort | uniq -c | sort -rn | head -8
